@@ -1,17 +1,156 @@
 import RTV.Drv.Proto
 import RTV.Model.ResGen
+import RTV.Model.ResGenEmit
 /-! Driver handlers for L12 `ResGen` (C18):
   sanitize <cps>        -> cps of sanitize(value, None, None)
   sanitizet <cps> <tok cps>... -> cps of sanitize(value, None, tokens)
-  centry <cps>          -> cps of create_entry(value, 'string') -/
+  centry <cps>          -> cps of create_entry(value, 'string')
+  rg.mod <HEADER_COMMENT> <header> <footer> <nenv> (<name> <value>)* <ndefs> <def>*
+        -> for every definition: <emitted text> <value tokens>, then <assembled module text>
+     a definition is one of
+        S <name> <def>                         !simpleRegex
+        N <name> <def> <k> <ref>*k             !nestedRegex
+        P <name> <def> <k> <param>*k <arg>*k   !paramsRegex (+ the arguments to call it with)
+        D <name> <keyType> <valueType> <n> (<key> (s <value> | l <m> <item>*m))*n     !dictionary
+        L <name> <type> <n> <entry>*n          !list
+        A <name> <n> <entry>*n                 untagged sequence
+        B <name> <0|1>                         bool
+        T <name> <text>                        untagged str scalar
+        I <name> <int>                         untagged int scalar
+     value tokens: x (not evaluable) | s <cps> | b <0|1> | n <mantissa> <decimals> | l <n> <cps>*n | o <cps>
+        | d <n> (<value> <value>)*n | f (s <cps> | x)
+  rg.evalf <body> <nenv> (<name> <value>)*     -> value of f'<body>' (cps) or none
+  rg.evalsq <body>     -> value of '<body>' or none
+  rg.evalraw <body>    -> value of r'<body>' or none
+  rg.subst <def> <k> <ref>*k <nenv> (<name> <value>)*   -> the specification `subst`
+  rg.split <text>      -> str.splitlines(): <n> <line>*n -/
 namespace RTV.Drv
 open RTV.ResGen
+
+def takeStrs : Nat → List String → Option (List Str × List String)
+  | 0, r => some ([], r)
+  | _ + 1, [] => none
+  | n + 1, x :: r => (takeStrs n r).map fun p => (parseCps x :: p.1, p.2)
+
+def takePairs : Nat → List String → Option (List (Str × Str) × List String)
+  | 0, r => some ([], r)
+  | n + 1, a :: b :: r => (takePairs n r).map fun p => ((parseCps a, parseCps b) :: p.1, p.2)
+  | _ + 1, _ => none
+
+def takeDictEntries : Nat → List String → Option (List (Str × DictVal) × List String)
+  | 0, r => some ([], r)
+  | n + 1, k :: "s" :: v :: r => (takeDictEntries n r).map fun p => ((parseCps k, .scalar (parseCps v)) :: p.1, p.2)
+  | n + 1, k :: "l" :: m :: r =>
+    match takeStrs (parseNat m) r with
+    | some (items, r') => (takeDictEntries n r').map fun p => ((parseCps k, .list items) :: p.1, p.2)
+    | none => none
+  | _ + 1, _ => none
+
+structure DefIn where
+  name : Str
+  tok : Token
+  args : List Str := []
+
+def takeDef : List String → Option (DefIn × List String)
+  | "S" :: name :: d :: r => some ({ name := parseCps name, tok := .simpleRegex (parseCps d) }, r)
+  | "N" :: name :: d :: k :: r =>
+    (takeStrs (parseNat k) r).map fun p => ({ name := parseCps name, tok := .nestedRegex (parseCps d) p.1 }, p.2)
+  | "P" :: name :: d :: k :: r =>
+    match takeStrs (parseNat k) r with
+    | some (ps, r1) =>
+      (takeStrs (parseNat k) r1).map fun p => ({ name := parseCps name, tok := .paramsRegex (parseCps d) ps, args := p.1 }, p.2)
+    | none => none
+  | "D" :: name :: kt :: vt :: n :: r =>
+    (takeDictEntries (parseNat n) r).map fun p =>
+      ({ name := parseCps name, tok := .dictionary (parseCps kt) (parseCps vt) p.1 }, p.2)
+  | "L" :: name :: t :: n :: r =>
+    (takeStrs (parseNat n) r).map fun p => ({ name := parseCps name, tok := .list (parseCps t) p.1 }, p.2)
+  | "A" :: name :: n :: r =>
+    (takeStrs (parseNat n) r).map fun p => ({ name := parseCps name, tok := .plainList p.1 }, p.2)
+  | "B" :: name :: b :: r => some ({ name := parseCps name, tok := .bool (parseBool b) }, r)
+  | "T" :: name :: s :: r => some ({ name := parseCps name, tok := .defaultStr (parseCps s) }, r)
+  | "I" :: name :: i :: r => some ({ name := parseCps name, tok := .defaultInt (parseInt i) }, r)
+  | _ => none
+
+def takeDefs : Nat → List String → Option (List DefIn × List String)
+  | 0, r => some ([], r)
+  | n + 1, r =>
+    match takeDef r with
+    | some (d, r1) => (takeDefs n r1).map fun p => (d :: p.1, p.2)
+    | none => none
+
+def showVal : Val → List String
+  | .str s => ["s", showCps s]
+  | .bool b => ["b", showBool b]
+  | .num m d => ["n", toString m, toString d]
+  | .list xs => ["l", toString xs.length] ++ xs.map showCps
+  | .other t => ["o", showCps t]
+
+def showDefVal (args : List Str) : DefVal → List String
+  | .val v => showVal v
+  | .dict es => ["d", toString es.length] ++ es.flatMap fun kv => showVal kv.1 ++ showVal kv.2
+  | .func ps body =>
+    match callFunc ps body args with
+    | some v => ["f", "s", showCps v]
+    | none => ["f", "x"]
+
+/-- emit + evaluate the definitions in order; the environment grows by every string-valued definition -/
+def runDefs : List DefIn → List (Str × Str) → List Str → List String → List Str × List String
+  | [], _, texts, out => (texts.reverse, out.reverse)
+  | d :: rest, env, texts, out =>
+    let text := writeToken d.name d.tok
+    match evalDef (lookup env) text with
+    | some (n, v) =>
+      if n = d.name then
+        let env' := match v with
+          | .val (.str s) => (n, s) :: env
+          | _ => env
+        runDefs rest env' (text :: texts) ((showDefVal d.args v).reverse ++ (showCps text :: out))
+      else runDefs rest env (text :: texts) ("x" :: showCps text :: out)
+    | none => runDefs rest env (text :: texts) ("x" :: showCps text :: out)
+
+def hMod (args : List String) : String :=
+  match args with
+  | hc :: header :: footer :: nenv :: r =>
+    match takePairs (parseNat nenv) r with
+    | some (env, ndefs :: r1) =>
+      match takeDefs (parseNat ndefs) r1 with
+      | some (defs, []) =>
+        let (texts, out) := runDefs defs env.reverse [] []
+        "\t".intercalate (out ++ [showCps (assemble (parseCps hc) (parseCps header) (parseCps footer) texts)])
+      | _ => "err:Other"
+    | _ => "err:Other"
+  | _ => "err:Other"
+
+def showOptCps : Option Str → String
+  | some s => showCps s
+  | none => "none"
 
 def dispatchResGen (op : String) (args : List String) : Option String :=
   match op, args with
   | "sanitize", [s] => some (showCps (sanitize (parseCps s) []))
   | "sanitizet", s :: toks => some (showCps (sanitize (parseCps s) (toks.map parseCps)))
   | "centry", [s] => some (showCps (createEntryString (parseCps s)))
+  | "rg.mod", args => some (hMod args)
+  | "rg.evalf", body :: nenv :: r =>
+    match takePairs (parseNat nenv) r with
+    | some (env, _) => some (showOptCps (evalFE (lookup env) (parseCps body)))
+    | none => some "err:Other"
+  | "rg.evalsq", [body] => some (showOptCps (evalSQ (parseCps body)))
+  | "rg.evalraw", [body] =>
+    some (match pRaw 39 false (parseCps body ++ [39]) with
+      | some (v, []) => showCps v
+      | _ => "none")
+  | "rg.subst", d :: k :: r =>
+    match takeStrs (parseNat k) r with
+    | some (refs, nenv :: r1) =>
+      match takePairs (parseNat nenv) r1 with
+      | some (env, _) => some (showOptCps (subst (lookup env) refs (parseCps d)))
+      | none => some "err:Other"
+    | _ => some "err:Other"
+  | "rg.split", [s] =>
+    let ls := splitlines (parseCps s)
+    some ("\t".intercalate (toString ls.length :: ls.map showCps))
   | _, _ => none
 
 end RTV.Drv
